@@ -93,15 +93,23 @@ pub fn timeouts() -> usize {
     TIMEOUTS.load(std::sync::atomic::Ordering::Relaxed)
 }
 
+/// patience for calls on very large inputs (set by the streams that judge sizes, reset to 0 afterwards): a slow answer on a
+/// 200 000-disclosure credential is no hang
+static PATIENCE: std::sync::atomic::AtomicU64 = std::sync::atomic::AtomicU64::new(0);
+pub fn set_patience(secs: u64) {
+    PATIENCE.store(secs, std::sync::atomic::Ordering::Relaxed);
+}
+
 pub fn watchdog<T: Send + 'static>(f: impl FnOnce() -> T + Send + 'static) -> Option<T> {
     // once calls have hung, the next ones get less patience: a hanging implementation must end the run with its
     // violations recorded, not stall it (every hung call keeps its thread spinning)
-    let patience = match timeouts() {
+    let boosted = PATIENCE.load(std::sync::atomic::Ordering::Relaxed);
+    let patience = if boosted > 0 { boosted } else { match timeouts() {
         0 => WATCHDOG_SECS,
         1..=2 => 6,
         3..=10 => 2,
         _ => 1,
-    };
+    } };
     let (tx, rx) = mpsc::channel();
     let h = thread::Builder::new().spawn(move || {
         let r = f();
